@@ -666,8 +666,16 @@ func (c *EvalCtx) evalCall(e *ECall) Val {
 		eng.ufun("canon_header", "("+eng.strSort()+") "+eng.strSort())
 		et := mt.Elem().Underlying().(*types.Slice).Elem()
 		v, dom := eng.mapLoad(c.p, c.snap(), h.T, h.S, "(canon_header "+k.S+")")
+		if !strings.Contains(v.S, "|q:") && !strings.Contains(h.S, "|q:") && !strings.Contains(k.S, "|q:") {
+			eng.assumeRange(c.p, v) // stored header values are allocated slices (heap typing)
+		}
 		first := eng.loadElem(c.p, c.snap(), v.S, v.Off, et)
 		return Val{K: KScalar, T: types.Typ[types.String], S: ite(and(not(eq(h.S, "0")), dom, "(> "+v.Len+" 0)"), first.S, zeroOfSort(eng.strSort()))}
+	case "canon":
+		// canon(k): textproto.CanonicalMIMEHeaderKey (uninterpreted, as in the http.Header model)
+		k := c.eval(e.Args[0])
+		eng.ufun("canon_header", "("+eng.strSort()+") "+eng.strSort())
+		return Val{K: KScalar, T: types.Typ[types.String], S: "(canon_header " + k.S + ")"}
 	case "durstring":
 		v := c.eval(e.Args[0])
 		eng.ufun("dur_string", "(Int) "+eng.strSort())
